@@ -34,7 +34,7 @@ RATES = (-0.89, -0.5, -0.1, 0, 0.0001, 0.001, 0.01, 0.05, 0.1, 0.25, 0.5, 1,
 RATES_FEW = (-0.5, 0, 0.05, 1)
 F6 = (-100, -10, 0, 10, 50, 100)
 F3 = (-100, 0, 50)
-NPER = (1, 2, 3, 12, 30, 120, 360)
+NPER = (1, 2, 3, 12, 30, 120, 360, 0.5, 10.5)     # nper need not be whole
 AMOUNTS = (-1000, 0, 1000, 250000)
 PAYMENTS = (-100, 0, 100, 2500)
 FVS = (None, 0, 100, -100)
@@ -247,7 +247,7 @@ def exec_fn(fn, args, route):
 
 
 def annuity_key(fn, c, third):
-    return 'C20/%s/r=%r/n=%d/x=%r/fv=%s/t=%s/r=%s' % (
+    return 'C20/%s/r=%r/n=%r/x=%r/fv=%s/t=%s/r=%s' % (
         fn, c['rate'], c['nper'], third, lit(c['fv']) or '-',
         lit(c.get('typ')) or '-', c['route'])
 
@@ -312,9 +312,9 @@ def case_inv(c, ctx):
                                          fi(rate, nper, x, *tail), *tail))
     else:
         t = ''.join(',%r' % v for v in tail)
-        got = lib.eval_formula('=%s(%r,%d,%s(%r,%d,%r%s)%s)' % (
+        got = lib.eval_formula('=%s(%r,%r,%s(%r,%r,%r%s)%s)' % (
             outer, rate, nper, inner, rate, nper, x, t, t))
-    key = 'C20/%s/r=%r/n=%d/x=%r/fv=%s/r=%s' % (c['op'], rate, nper, x,
+    key = 'C20/%s/r=%r/n=%r/x=%r/fv=%s/r=%s' % (c['op'], rate, nper, x,
                                                 lit(fv) or '-', route)
     tags = {'fn:' + outer, 'fn:' + inner, 'inversion', 'route:' + route}
     tags |= rate_tags(rate)
